@@ -121,9 +121,6 @@ func main() {
 		if *fnFilter != "" && !strings.Contains(k, *fnFilter) {
 			continue
 		}
-		if len(want) > 0 && !con.touches(want) {
-			continue
-		}
 		rep := FnReport{Fn: shortFnName(k), Key: k, Props: con.allProps(), Arith: con.Arith, Trusted: con.Trusted, TrustedWhy: con.TrustedWhy}
 		output.Obligations = append(output.Obligations, &Obligation{Name: shortFnName(k) + "/contract-binding", Fn: shortFnName(k), Kind: "contract-binding",
 			Props: con.allProps(), Backend: "static", Static: "ok", Pos: con.Pos})
@@ -241,13 +238,18 @@ func main() {
 		for _, fn := range fns {
 			k := g.funcKey[fn]
 			var scanCon *FuncContract
-			if ic := g.inheritedContract(fn); ic != nil && ic.VerifyImpls {
-				scanCon = ic
+			if ic := g.inheritedContract(fn); ic != nil {
+				cp := *ic
+				if !ic.VerifyImpls {
+					// only the interface's preconditions are assumed; nothing about the body is claimed
+					cp.Ensures, cp.HasMod, cp.Modifies, cp.ModAll, cp.Pure = nil, false, nil, false, false
+				}
+				scanCon = &cp
 			}
 			c := newFnCtx(g, fn, scanCon)
 			err := c.run()
 			rep := FnReport{Fn: shortFnName(k), Key: k, Arith: "int", Notes: c.notes, Loops: len(c.loops)}
-			if scanCon != nil {
+			if scanCon != nil && len(scanCon.Ensures) > 0 {
 				rep.Notes = append(rep.Notes, "verified against the interface contract "+scanCon.IfaceKey)
 			}
 			for _, b := range fn.Blocks {
